@@ -218,7 +218,7 @@ def harnesses(tier):
     nmax_unif = 3 if tier == "quick" else 5
     shards = []
     for n in range(2, nmax + 1):
-        for v in tg.all_parent_vectors(n):
+        for v in tg.ordered_representatives(tg.all_parent_vectors(n)):
             if not tg.shape_ok(v, allow_unifurcations=(n <= nmax_unif), min_leaves=2):
                 continue
             for var in VARIANTS:
